@@ -9,7 +9,8 @@ and Snowflake overrides), `parse_prefix` (restricted to a fragment), `parse_infi
 
 * Input: the non-whitespace tokens; `[]` is EOF.
 * `depth` is `RecursionCounter::remaining_depth`: every `parse_subexpr` takes one level
-  (`ERR:rle` at 0) and so does `parse_data_type` (used by `::`).
+  (`ERR:rle` at 0) and so does `parse_data_type` (used by `::`, and by the typed-string probe at
+  the head of `parse_prefix`, whose `maybe_parse` propagates the limit error).
 * `fuel` only makes the definition structurally recursive; the driver supplies more than any run uses.
 * Outside the fragment the model answers `Err.unsupported`; it never guesses.
 * The model mirrors the code branch by branch, oddities included (e.g. `a REGEXP RLIKE b`).
@@ -565,10 +566,12 @@ def loop (c : Cfg) : Nat → Nat → Nat → Expr → List Tok → Res
       | .error er => .error er
       | .ok (e', ts') => loop c f d p e' ts'
 
-/-- `parse_prefix` -/
+/-- `parse_prefix`; the `parse_data_type` probe at its head takes one recursion level and
+`maybe_parse` passes `RecursionLimitExceeded` on, so the prefix needs one free level -/
 def parsePrefix (c : Cfg) : Nat → Nat → List Tok → Res
   | 0, _, _ => .error .fuel
   | f + 1, d, ts =>
+    if d = 0 then .error .rle else
     match prefixHead c ts with
     | .error er => .error er
     | .ok (.atom k toks rest) => collateCheck (.atom k toks) rest
